@@ -250,6 +250,7 @@ pub fn spec(check: &str, tier: &str) -> Option<CheckSpec> {
             progs.extend(pick(fam::wait_family(1, 2, 2, 12, true, true, true), if tier == "quick" { 16 } else { 400 }));
             progs.extend(pick(fam::chan_family(2, 2, 2, true), if tier == "quick" { 6 } else { 60 }));
             progs.extend(pick(fam::a_sc(1, 2, 2, 4, false), if tier == "quick" { 10 } else { 170 }));
+            progs.extend(pick(fam::stat_programs("quick"), if tier == "quick" { 24 } else { 300 }));
             let mut cfg = cfg.clone();
             cfg.iter_cap = if tier == "quick" { 500 } else { 2500 };
             let mut js = jobs("C13", tier, progs, &cfg);
@@ -293,6 +294,20 @@ pub fn spec(check: &str, tier: &str) -> Option<CheckSpec> {
                 jobs: js,
                 self_checks: vec![],
                 completed_level: format!("K = {}", progs.len()),
+                abort_is_violation: true,
+            })
+        }
+        "C17" => {
+            let progs = fam::stat_programs(tier);
+            Some(CheckSpec {
+                id: "C17",
+                level: "model_checking",
+                rule: "every program of the STAT family (1-3 children + main, every sequence of with / nested with / lazy get over 2 thread-local keys and 2 lazy statics, plain and loom-op-in-initialiser/destructor flavours); per iteration: history replay plus init/drop/privacy/AccessError/address counters; non-trivial = >= 2 reference outcomes or >= 3 threads",
+                assumptions: vec!["the running loom thread is identified through hook H2 inside initialisers and destructors", "whether a destructor is already visible when join returns is not part of the oracle"],
+                wall_cap: wall,
+                jobs: jobs("C17", tier, progs, &cfg),
+                self_checks: vec![],
+                completed_level: format!("STAT {}", tier),
                 abort_is_violation: true,
             })
         }
@@ -429,6 +444,7 @@ pub fn c16_programs(tier: &str) -> Vec<Program> {
     v.extend(pick(fam::chan_family(2, 1, 2, true), k));
     v.extend(pick(fam::arc_family(1, 2, 1, 3, false, true, false), k));
     v.extend(pick(fam::leak_family(), k + 1));
+    v.extend(pick(fam::stat_programs("quick").into_iter().filter(|p| p.threads.len() >= 3).collect(), k + 1));
     v
 }
 
